@@ -40,11 +40,8 @@ NA = {
 }
 # properties whose check is planned in DESIGN.md but not built yet
 PENDING = {
- "C11": "check not built yet (planned: next_prefix kernel, DESIGN §5 C11)",
- "C36": "check not built yet (planned: balances indexation step, DESIGN §5 C36)",
  "C37": "check not built yet (planned: select_coins_to_spend, DESIGN §5 C37)",
  "C38": "check not built yet (planned: query_pagination, DESIGN §5 C38)",
- "C42": "check not built yet (planned: sequentialised seqlock, DESIGN §5 C42)",
  "C43": "check not built yet (planned: receipt/header conversions, DESIGN §5 C43)",
 }
 
